@@ -288,8 +288,8 @@ pub fn run(ctx: &Ctx) {
         sc_bytes.push(lm.add(&U::from_u64(k)).to_le32());
         sc_bytes.push(lm.sub(&U::from_u64(k + 1)).to_le32());
     }
-    let ed_bytes: Vec<[u8; 32]> = c03::encodings(true).into_iter().take(if quick { 500 } else { 2000 }).collect();
-    let ris_bytes: Vec<[u8; 32]> = c06::encodings(true).into_iter().take(if quick { 400 } else { 2000 }).collect();
+    let ed_bytes: Vec<[u8; 32]> = c03::encodings(true).into_iter().take(if quick { 1200 } else { 2000 }).collect();
+    let ris_bytes: Vec<[u8; 32]> = c06::encodings(true).into_iter().take(if quick { 700 } else { 2000 }).collect();
     let any_bytes: Vec<[u8; 32]> = alpha::fe_bytes().into_iter().take(60).collect();
     let seed_bytes: Vec<[u8; 32]> = seeds(8).into_iter().chain(any_bytes.iter().cloned().take(20)).collect();
 
